@@ -788,9 +788,13 @@ def run_reader(case) -> CaseResult:
                         h.settle()
                 elif kind == 'pumpall':
                     h.pump(chunker)
-                elif kind == 'untilc':
+                elif kind in ('untilc', 'exactc', 'readallc'):
+                    # a read given up by its caller (wait_for timeout): what
+                    # it had not returned is still there for the next read
                     reader, model = readers['o']
-                    sub = ['until', op[1]]
+                    sub = ['until', op[1]] if kind == 'untilc' else \
+                        resolve(['exact', op[1]], model) \
+                        if kind == 'exactc' else ['readall']
                     op_labels(sub, model, cfg, labels)
                     task = h.spawn(do_op(reader, enc, sub))
 
@@ -808,6 +812,8 @@ def run_reader(case) -> CaseResult:
                         task.cancel()
                         h.settle()
                         labels.add('cancelled')
+                        if kind != 'untilc':
+                            labels.add('cancelled:' + kind)
                 else:
                     step_op('o', op)
 
@@ -823,7 +829,8 @@ def run_reader(case) -> CaseResult:
                 reader, model = readers[stream]
 
                 for op in ops:
-                    if op[0] in ('pump', 'pumpall', 'untilc'):
+                    if op[0] in ('pump', 'pumpall', 'untilc', 'exactc',
+                                 'readallc'):
                         continue
                     op = resolve(op, model)
                     op_labels(op, model, cfg, labels)
@@ -987,13 +994,17 @@ def op_strategy(win: int, pkt: int, seps, cancel: bool):
         'pump': st.tuples(st.just('pump'), st.integers(1, 6)).map(list),
         'pumpall': st.just(['pumpall']),
         'untilc': st.tuples(st.just('untilc'), sepof,
-                            st.integers(0, 5)).map(list)}
+                            st.integers(0, 5)).map(list),
+        'exactc': st.tuples(st.just('exactc'), nst,
+                            st.integers(0, 5)).map(list),
+        'readallc': st.tuples(st.just('readallc'), st.just(0),
+                              st.integers(0, 5)).map(list)}
     kinds = ['read', 'read-small', 'read-small', 'exact', 'exact-small',
              'exactrem', 'line', 'line', 'line', 'until', 'until', 'until',
              'until', 'until', 'until', 'readall', 'pump', 'pumpall']
 
     if cancel:
-        kinds.append('untilc')
+        kinds += ['untilc', 'exactc', 'exactc', 'readallc']
 
     return pick(kinds).flatmap(lambda k: build[k])
 
@@ -2924,7 +2935,8 @@ FAMILIES = [
                              'sep-regex', 'incomplete', 'window-full',
                              'concurrent', 'chunk-1byte', 'exit-before-data',
                              'op-read', 'op-exact', 'op-line', 'op-until',
-                             'final-iter', 'sep-found']},
+                             'final-iter', 'sep-found', 'cancelled:exactc',
+                             'cancelled:readallc']},
            timeout_is_violation=True, case_timeout=120),
     Family('srvreader', run_srvreader, strategy=srvreader_strategy,
            budget={'quick': 220, 'thorough': 4000},
